@@ -414,7 +414,7 @@ def run_check(pid, tier, seed, replay=None):
             scans[name] = sc
             for caseno, v in sc["violations"]:
                 mt = re.match(r"(C\d+):", v)
-                if mt and "monitor_tags" in spec and mt.group(1) not in spec["monitor_tags"]:
+                if mt and mt.group(1) not in spec.get("monitor_tags", [pid]):
                     continue
                 violations.append(("monitor", "%s case %d: %s" % (name, caseno, v), {"trace": tr, "case": caseno}))
             if xb["ok"] and sc["ops"] > 0 and name not in spec.get("impl_only_traces", []):
@@ -422,7 +422,7 @@ def run_check(pid, tier, seed, replay=None):
                 drv[name] = d
                 if not d["ok"]:
                     broken.append("model driver failed on %s: %s" % (name, d.get("log", "")))
-                elif d["mismatches"] and "project_codes" in spec and not any(c in d.get("percode", {}) for c in spec["project_codes"]):
+                elif d["mismatches"] and name in spec.get("project_codes", {}) and not any(c in d.get("percode", {}) for c in spec["project_codes"][name]):
                     notes.append("divergence outside this property's projection on %s: %s" % (name, d.get("percode")))
                     d["outside_projection"] = d["mismatches"]
                     d["mismatches"] = 0
